@@ -11,6 +11,7 @@ import (
 	bloomfilter "github.com/KevoDB/kevo/pkg/bloom_filter"
 	"github.com/KevoDB/kevo/pkg/sstable/block"
 	"github.com/KevoDB/kevo/pkg/sstable/footer"
+	"github.com/KevoDB/kevo/pkg/verifhook"
 )
 
 // FileManager handles file operations for SSTable writing
@@ -65,11 +66,13 @@ func (fm *FileManager) FinalizeFile() error {
 		return fmt.Errorf("failed to close file: %w", err)
 	}
 
+	verifhook.Point("sstable.finalize.before_rename")
 	// Rename the temp file to the final path
 	if err := os.Rename(fm.tmpPath, fm.path); err != nil {
 		return fmt.Errorf("failed to rename temp file: %w", err)
 	}
 
+	verifhook.Point("sstable.finalize.after_rename")
 	return nil
 }
 
@@ -416,6 +419,7 @@ func (w *Writer) Finish() (err error) {
 		}
 	}
 
+	verifhook.Point("sstable.finish.after_blocks")
 	// Write bloom filters if enabled
 	var bloomFilterOffset uint64 = 0
 	var bloomFilterSize uint32 = 0
@@ -461,6 +465,7 @@ func (w *Writer) Finish() (err error) {
 		}
 	}
 
+	verifhook.Point("sstable.finish.after_bloom")
 	// Create index block
 	indexOffset := w.dataOffset
 
@@ -489,6 +494,7 @@ func (w *Writer) Finish() (err error) {
 	// Update offset after writing index
 	w.dataOffset += uint64(n)
 
+	verifhook.Point("sstable.finish.after_index")
 	// Create footer with bloom filter information
 	ft := footer.NewFooter(
 		indexOffset,
@@ -512,11 +518,13 @@ func (w *Writer) Finish() (err error) {
 		return fmt.Errorf("wrote incomplete footer: %d of %d bytes", n, len(footerData))
 	}
 
+	verifhook.Point("sstable.finish.after_footer")
 	// Sync the file
 	if err := w.fileManager.Sync(); err != nil {
 		return fmt.Errorf("failed to sync file: %w", err)
 	}
 
+	verifhook.Point("sstable.finish.after_fsync")
 	// Finalize file (close and rename)
 	return w.fileManager.FinalizeFile()
 }
